@@ -470,6 +470,11 @@ pub fn build(c: Ctor, op: &Op) -> Built {
 /// is deterministic and distinguishable instead of "whatever was there".
 #[inline(never)]
 pub fn dirty_stack(pattern: u8) {
+    if cfg!(miri) {
+        // Miri tracks uninitialised memory itself; the loop below would only
+        // cost interpretation time
+        return;
+    }
     let mut buf = [0u8; 24 * 1024];
     for (i, b) in buf.iter_mut().enumerate() {
         *b = pattern ^ ((i >> 12) as u8 & 1); // not a plain memset the optimiser may elide
